@@ -16,6 +16,10 @@ InRange == BigLess(ToRing(n, cl), NHashBig(n))
 RingSizes == Cardinality({c \in Cells(n) : RhoOf(n, c) = RhoOf(n, cl)}) = RingSize(n, RhoOf(n, cl))
 PosOK == LET p == PosInRing(n, cl) IN p[2] >= 0 /\ p[2] < p[3] /\ p[1] \in 0..3
 ASSUME \A N \in Ns : {BigToInt(ToRing(N, c)) : c \in Cells(N)} = 0..(12 * N * N - 1)
+RECURSIVE SumSizes(_, _)
+SumSizes(N, rho) == IF rho = 0 THEN 0 ELSE RingSize(N, rho) + SumSizes(N, rho - 1)
+ASSUME \A N \in Ns : \A rho \in 1..(4 * N) : BigToInt(RingStart(N, rho)) = SumSizes(N, rho - 1)
+RingStartOK == BigToInt(RingStart(n, RhoOf(n, cl))) <= Rank(n, cl) /\ Rank(n, cl) < BigToInt(RingStart(n, RhoOf(n, cl) + 1))
 ASSUME BigMul(BigOf(123456789), BigOf(987654321)) = <<21381, 30718, 17491, 3465>>
 ASSUME BigSub(BigMul(BigOf(40000), BigOf(50000)), BigOf(1999999999)) = BigOf(1)
 =======================================================================
